@@ -12,6 +12,7 @@ package revocation
 // (idx, revokedAt).
 
 import (
+	"encoding/json"
 	"errors"
 	"fmt"
 	"github.com/privacybydesign/gabi/big"
@@ -370,6 +371,137 @@ func TestVerifC09LongChain(t *testing.T) {
 				r.Outcome(fmt.Sprintf("route=%s:revoked=%v:ok=%v", name[:3], rev != 0, bad == ""))
 				if bad != "" {
 					r.Violate("C09|long-chain|"+map[bool]string{true: "revoked", false: "valid"}[rev != 0]+"-witness-mishandled", desc+": "+bad, desc)
+				}
+			}
+		}
+	}
+}
+
+// TestVerifC09Assembled: updates that a holder ASSEMBLES from what it received - older events
+// prepended (Update.Prepend) to an update holding newer ones, adjacent or overlapping, the older list
+// being a plain object, a decoded one that carries its product (ComputeProduct), or several decoded
+// lists flattened into one.  Whatever the route, the assembled update must move every non-revoked
+// witness it applies to, in whatever order the witnesses come, and report revoked ones as revoked.
+func TestVerifC09Assembled(t *testing.T) {
+	r := vkit.Start(t, "C09", "assembled-updates", 120*time.Second, 600*time.Second)
+	defer r.Finish()
+	H := vkit.Pick(6, 8)
+	r.Rule = fmt.Sprintf("history of %d revocations (event 3 revokes the tracked value of the second witness kind); older list [a..m] x newer update [m2..H] with m2 in [a+1..m+1] (overlap of 0..m-a events) x list form {object, JSON-decoded with product, two decoded halves flattened}; the assembled update applied to witnesses at EVERY index a-1..H-1 in ascending and in descending order (one shared update object) and each alone on a fresh assembly; non-trivial = distinct (a, m, m2, form, order, witness); oracle: Prepend succeeds; non-revoked witness => Update succeeds and the witness verifies against accumulator H; witness revoked inside the window => ErrorRevoked and unchanged", H)
+	rvInstallEnv(t, "C09asm", r.Seed)
+	sk, pk := rvKeys(32, 0)
+	var es []*big.Int
+	for k := 1; k <= H; k++ {
+		es = append(es, rvPrime(2+k))
+	}
+	es[2] = rvPrime(1) // event 3 revokes the second witness kind
+	world := rvNewWorld(sk, pk, es)
+	decode := func(a, b int) *EventList {
+		src := NewEventList(world.Window(a, b, 0).Events...)
+		bts, err := json.Marshal(src)
+		if err != nil {
+			panic(err)
+		}
+		el := &EventList{ComputeProduct: true}
+		if err := json.Unmarshal(bts, el); err != nil {
+			panic(err)
+		}
+		return el
+	}
+	for a := 1; a <= H-1; a++ {
+		for m := a; m <= H-1; m++ {
+			for m2 := a + 1; m2 <= m+1; m2++ {
+				for _, form := range []string{"object", "decoded+product", "flattened"} {
+					if form == "flattened" && m == a {
+						continue
+					}
+					if _, mine := r.Next(); !mine {
+						continue
+					}
+					if r.Expired() {
+						return
+					}
+					assemble := func() (*Update, error) {
+						var el *EventList
+						switch form {
+						case "object":
+							el = NewEventList(world.Window(a, m, 0).Events...)
+						case "decoded+product":
+							el = decode(a, m)
+						default:
+							cut := (a + m) / 2
+							var err error
+							if el, err = FlattenEventLists([]*EventList{decode(cut+1, m), decode(a, cut)}); err != nil {
+								return nil, err
+							}
+						}
+						u := world.Window(m2, H, 0)
+						var err error
+						if pan, msg := vkit.Guard(func() { err = u.Prepend(el) }); pan {
+							return nil, errors.New("panic: " + msg)
+						}
+						return u, err
+					}
+					base := fmt.Sprintf("list [%d..%d] (%s) prepended to update [%d..%d]", a, m, form, m2, H)
+					apply := func(u *Update, idx int, kind int, desc string) {
+						r.Eval()
+						r.Nontrivial(desc)
+						val := rvPrime(0)
+						revokedAt := 0
+						if kind == 1 {
+							val, revokedAt = rvPrime(1), 3
+						}
+						if revokedAt != 0 && revokedAt <= idx {
+							return // cannot be issued after its revocation
+						}
+						w := world.Witness(idx, val)
+						before := rvSnapshot(w)
+						var err error
+						pan, msg := vkit.Guard(func() { err = w.Update(pk, u) })
+						switch {
+						case pan:
+							r.Violate("C09|assembled-update|panic", desc+": "+msg, desc)
+						case revokedAt != 0:
+							r.Outcome("assembled:revoked-witness:err=" + fmt.Sprint(err != nil))
+							if !errors.Is(err, ErrorRevoked) {
+								r.Violate("C09|assembled-update|revocation-not-reported", fmt.Sprintf("%s: %v", desc, err), desc)
+							} else if !rvSnapshot(w).Equal(before) {
+								r.Violate("C09|assembled-update|failed-update-changed-witness", desc, desc)
+							}
+						default:
+							r.Outcome("assembled:valid-witness:err=" + fmt.Sprint(err != nil))
+							if err != nil {
+								r.Violate("C09|assembled-update|applicable-update-failed", fmt.Sprintf("%s: %v", desc, err), desc)
+							} else if w.SignedAccumulator.Accumulator.Index != uint64(H) || w.Verify(pk) != nil {
+								r.Violate("C09|assembled-update|witness-not-valid-for-the-newest-accumulator", desc, desc)
+							}
+						}
+					}
+					for _, order := range []string{"ascending", "descending", "alone"} {
+						var u *Update
+						var idxs []int
+						for i := a - 1; i <= H-1; i++ {
+							idxs = append(idxs, i)
+						}
+						if order == "descending" {
+							for i, j := 0, len(idxs)-1; i < j; i, j = i+1, j-1 {
+								idxs[i], idxs[j] = idxs[j], idxs[i]
+							}
+						}
+						for _, idx := range idxs {
+							for kind := 0; kind <= 1; kind++ {
+								if u == nil || order == "alone" {
+									var err error
+									if u, err = assemble(); err != nil {
+										r.Violate("C09|assembled-update|prepend-failed", fmt.Sprintf("%s: %v", base, err), base)
+										u = nil
+										break
+									}
+								}
+								apply(u, idx, kind, fmt.Sprintf("%s, witnesses in %s order, witness at %d kind %d", base, order, idx, kind))
+							}
+						}
+					}
+					r.Sample(map[string]any{"assembly": base})
 				}
 			}
 		}
